@@ -28,8 +28,8 @@ KEY_PANIC = "limit-offset-sum-negative-panic"
 KEY_ESC = "term-search-misses-json-escaped-host-on-disk"
 SIG_KEYS = {"skip": KEY_SKIP, "esc": KEY_ESC}
 
-ACTIONS_MC = ["DoRec", "DoEnc", "AutoEnc", "DoApp", "DoAppFails", "DoRotate", "DoClear", "DoConf", "DoRestart", "DoSearch"]
-ACTIONS_GEN = ["rec", "enc", "app", "appfail", "autoflush", "autoflushfail", "rotate", "clear", "conf", "restart"]
+ACTIONS_MC = ["DoRec", "DoEnc", "AutoEnc", "DoApp", "DoAppFails", "DoRotate", "DoRotCheck", "DoClear", "DoConf", "DoRestart", "DoSearch"]
+ACTIONS_GEN = ["rec", "enc", "app", "appfail", "autoflush", "autoflushfail", "rotate", "rotcheck", "clear", "conf", "restart"]
 
 
 # ------------------------------------------------------------------ classification
@@ -180,7 +180,7 @@ def replay_record(ctx, table, rec):
 
 
 # ------------------------------------------------------------------ direction B
-TRACE_EVS = {"init", "rec", "recn", "flush", "flushfail", "autoflushfail", "stall", "autoflush", "rotate", "clear", "conf", "restart", "search"}
+TRACE_EVS = {"init", "rec", "recn", "flush", "flushfail", "autoflushfail", "stall", "rotcheck", "autoflush", "rotate", "clear", "conf", "restart", "search"}
 
 
 def run_history(ctx, hist, nrec, mem=None, big=False):
@@ -294,7 +294,7 @@ def _run_bindings(ctx):
     ctx.log("graph: %d states (%d with observation tables), %d edge groups, %d initial states" % (
         len(rows), nstates_obs, len(groups), len(inits)))
     budget = 4500 if ctx.quick else 0
-    res, summ = run_walks(ctx, table, rows, groups, inits, budget)
+    res, summ = run_walks(ctx, table, rows, groups, inits, budget, workers=5 if ctx.quick else 8)
     ctx.log("walks: %s" % json.dumps({k: summ[k] for k in ("walks", "steps", "queries", "covered", "groups", "bad", "flaky", "discards")}))
 
     sample_bad = []
